@@ -185,6 +185,111 @@ pub fn call_graph_shapes(rng: &mut Rng) -> Vec<Shape> {
     v
 }
 
+/// Several functions that share several separate tails (same or different owner sets).
+pub fn shared_tail_family(rng: &mut Rng) -> Shape {
+    let n_fn = 2 + rng.below(2);
+    let n_tail = 1 + rng.below(3);
+    let mut p = Program::default();
+    p.label("main");
+    for k in 0..n_fn {
+        p.push(Ins::li(A0, k as i32));
+        p.push(Ins::call(&format!("sf_{k}")));
+    }
+    exit(&mut p);
+    // interleave function heads and tails in program order
+    let mut pieces: Vec<(bool, usize)> = (0..n_fn).map(|k| (true, k)).chain((0..n_tail).map(|k| (false, k))).collect();
+    // the first piece must be a function head (a tail in front would be reachable only by jumps, fine too)
+    rng.shuffle(&mut pieces);
+    for (is_fn, k) in pieces {
+        if is_fn {
+            p.label(&format!("sf_{k}"));
+            p.push(Ins::addi(A0, A0, 1 + k as i32));
+            // reach a random non-empty subset of the tails
+            let mut targets: Vec<usize> = (0..n_tail).filter(|_| rng.chance(0.7)).collect();
+            if targets.is_empty() {
+                targets.push(rng.below(n_tail));
+            }
+            let last = targets.pop().unwrap();
+            for t in targets {
+                p.push(Ins::Branch { c: Cond::Eq, rs1: A0, rs2: ZERO, label: format!("st_{t}") });
+            }
+            p.push(Ins::j(&format!("st_{last}")));
+        } else {
+            p.label(&format!("st_{k}"));
+            p.push(Ins::addi(A0, A0, 10 + k as i32));
+            if rng.chance(0.3) {
+                p.push(Ins::addi(A0, A0, 1));
+            }
+            p.push(Ins::ret());
+        }
+    }
+    Shape { name: "shared-tail-family", prog: p }
+}
+
+/// Trap handlers that save registers through a pointer kept in uscratch (CSR-heavy facts).
+pub fn trap_handler_family(rng: &mut Rng) -> Shape {
+    let ptr = *rng.pick(&[5u8, 6, 7, 28]);
+    let mut saved: Vec<Reg> = vec![9, 18, 19, 8];
+    rng.shuffle(&mut saved);
+    saved.truncate(1 + rng.below(3));
+    let csr_ptr = *rng.pick(&[0x40u32, 0x40, 0x43]);
+    let exits_inside = rng.chance(0.6);
+    let exception_first = rng.chance(0.5);
+    let mut p = Program::default();
+    p.label("main");
+    p.push(Ins::La { rd: ptr, label: "handler".into() });
+    p.push(Ins::Csrrw { rd: ZERO, csr: 5, rs1: ptr });
+    if rng.chance(0.5) {
+        p.push(Ins::La { rd: ptr, label: "save_area".into() });
+        p.push(Ins::Csrrw { rd: ZERO, csr: csr_ptr, rs1: ptr });
+    }
+    exit(&mut p);
+    p.label("handler");
+    p.push(Ins::Csrrw { rd: ptr, csr: csr_ptr, rs1: ptr });
+    for (k, s) in saved.iter().enumerate() {
+        p.push(Ins::sw(*s, 4 * k as i32, ptr));
+    }
+    let work = saved[0];
+    p.push(Ins::Csrrs { rd: work, csr: 0x42, rs1: ZERO });
+    let exception = |p: &mut Program, rng: &mut Rng| {
+        p.label("exception");
+        if rng.chance(0.7) {
+            p.push(Ins::sw(work, 0, ptr));
+        }
+        if rng.chance(0.3) {
+            p.push(Ins::Csrrwi { rd: ZERO, csr: 0x41, imm: rng.range(0, 31) as i32 });
+        }
+        if exits_inside {
+            p.push(Ins::li(A7, 10));
+            p.push(Ins::Ecall);
+        } else {
+            p.push(Ins::j("restore"));
+        }
+    };
+    let restore = |p: &mut Program| {
+        p.label("restore");
+        for (k, s) in saved.iter().enumerate() {
+            p.push(Ins::lw(*s, 4 * k as i32, ptr));
+        }
+        p.push(Ins::Csrrw { rd: ptr, csr: csr_ptr, rs1: ptr });
+        p.lines.push(Line::Raw("    uret".into()));
+    };
+    if exception_first {
+        p.push(Ins::Branch { c: Cond::Lt, rs1: work, rs2: ZERO, label: "restore".into() });
+        exception(&mut p, rng);
+        restore(&mut p);
+    } else {
+        p.push(Ins::Branch { c: Cond::Ge, rs1: work, rs2: ZERO, label: "exception".into() });
+        p.push(Ins::j("restore"));
+        restore(&mut p);
+        exception(&mut p, rng);
+    }
+    p.lines.push(Line::SecData);
+    p.label("save_area");
+    p.lines.push(Line::Data(Data::Space(32)));
+    Shape { name: "trap-handler-family", prog: p }
+}
+
 /// Programs that parse without errors but that the analyzer may be unable to analyse (C16).
 pub fn failure_shapes(rng: &mut Rng) -> Vec<Shape> {
     let mut v = Vec::new();
